@@ -68,6 +68,9 @@ pub fn build(rec: &Value) -> Built {
         if layout == "index" { yaml.push_str(&format!("    {}: {}\n", key, i + 1)); } else { yaml.push_str(&format!("    {}: \"{}\"\n", key, label)); }
     }
     if layout == "template" { yaml.push_str("    payee:\n      template: \"{category}\"\n"); }
+    if cfg["ruleconv"] == "disabled" {
+        yaml.push_str("rewrite:\n  - matcher:\n      payee: \".*\"\n    conversion:\n      disabled: true\n");
+    }
     let mut csv = String::new();
     for i in 0..skip { csv.push_str(&format!("Account statement line {}\n", i + 1)); }
     csv.push_str(&cols.iter().map(|(l, _)| cell(l, delim)).collect::<Vec<_>>().join(&delim.to_string()));
@@ -230,7 +233,7 @@ pub fn replay(idx: usize, rec: &Value, workdir: &str) -> Value {
         let _ = std::fs::remove_dir_all(&dir);
     }
     let cfg = &rec["cfg"];
-    let classes = vec![format!("conv_{}", cfg["conv"].as_str().unwrap()), format!("{}_{}", cfg["atype"].as_str().unwrap(), cfg["cols"].as_str().unwrap()),
+    let classes = vec![format!("conv_{}", cfg["conv"].as_str().unwrap()), format!("ruleconv_{}", cfg["ruleconv"].as_str().unwrap()), format!("{}_{}", cfg["atype"].as_str().unwrap(), cfg["cols"].as_str().unwrap()),
                        format!("layout_{}", cfg["layout"].as_str().unwrap()), cfg["order"].as_str().unwrap().to_string()];
     json!({"ok": viols.is_empty(), "viol": viols, "classes": classes, "observed": Value::Null,
            "files": if viols.is_empty() { Value::Null } else { json!({"yaml": b.yaml, "csv": b.csv}) }})
